@@ -318,6 +318,133 @@ def check_rec(ctx, rep):
     rep.extra['abstract_steps'] = steps
 
 
+CCHUNK = 1   # raid_validate walks the block byte by byte: one byte is a complete iteration
+
+
+def run_consistency(P, matrix, nd, np_, true_bad, listed):
+    """abstractly run raid_check(listed) on a stripe whose blocks in `true_bad` carry an arbitrary error (fresh variables E) on top of
+    their true content.  Returns the recorded syndrome forms (list of 8-bit form lists) and the machine."""
+    A = gf.cauchy() if matrix == 'cauchy' else gf.power()
+    nbuf = nd + np_
+    m = Machine(P, CCHUNK, nbuf, range(nd), bindings=bindings_for('int8', matrix))
+    m.collect = []
+    bad = set(true_bad)
+    class Init(dict):
+        def __missing__(self, key):
+            buf, c = key
+            true = [m.var(buf, c, b) for b in range(8)] if buf < nd else kernels.expected_parity_forms(m, A, nd, buf - nd, c)
+            v = [t ^ m.var(nbuf + buf, c, b) for b, t in enumerate(true)] if buf in bad else true
+            self[key] = v
+            return v
+        def __contains__(self, key):
+            return key[0] in bad or key[0] >= nd
+    m.buf_init = Init()
+    m.iarrs['ir'] = list(listed)
+    r = run_function(m, 'raid_check', [len(listed), Ptr(('iarr', 'ir'), 0), nd, np_, SIZE, Ptr(('vec',), 0)])
+    return r, m
+
+
+def check_consistency(ctx, rep):
+    """R-C03-4: the consistency test (raid_check/raid_validate) accepts the true failure set (all syndromes identically zero) and,
+    when one further corrupted block X is unlisted, some syndrome byte is an invertible function of X's error byte alone"""
+    P = ctx.raid
+    rep.rule('R-C03-4', 'raid_check: listing exactly the corrupted blocks gives identically-zero syndromes; leaving one corrupted block unlisted makes a syndrome byte an invertible function of its error', 40)
+    rnd = random.Random(ctx.seed + 7)
+    cfgs = []
+    for nd in ([2, 3, 4] if ctx.tier == 'quick' else [2, 3, 4, 5, 8, 33]):
+        for np_ in range(2, 7):
+            for matrix in (('cauchy', 'power') if np_ <= 3 else ('cauchy',)):
+                for nr in range(0, np_ - 1 + 1):
+                    if nr >= np_:
+                        continue
+                    sets = list(itertools.combinations(range(nd + np_), nr))
+                    rnd.shuffle(sets)
+                    for T in sets[: (4 if ctx.tier == 'quick' else 12)]:
+                        cfgs.append((matrix, nd, np_, T))
+    _G['P'] = P
+    tasks = [(matrix, nd, np_, T, rnd.randrange(1 << 30)) for matrix, nd, np_, T in cfgs]
+    with multiprocessing.get_context('fork').Pool(min(16, os.cpu_count() or 1)) as pool:
+        results = pool.map(_ctask, tasks, chunksize=4)
+    for res in results:
+        for kind, inst, ok, det in res:
+            if kind == 'unsupported':
+                raise AnalysisBroken('E2 cannot interpret %s: %s' % (inst, det))
+            rep.check(ok, 'R-C03-4', inst, 'raid/check.c', det, function='raid_check', construct=kind)
+    rep.extra['consistency_runs'] = len(cfgs)
+
+
+def _rank8(rows):
+    rows2 = rows[:]
+    rk = 0
+    for bit in range(8):
+        piv = None
+        for i_ in range(rk, 8):
+            if rows2[i_] >> bit & 1:
+                piv = i_
+                break
+        if piv is None:
+            continue
+        rows2[rk], rows2[piv] = rows2[piv], rows2[rk]
+        for i_ in range(8):
+            if i_ != rk and rows2[i_] >> bit & 1:
+                rows2[i_] ^= rows2[rk]
+        rk += 1
+    return rk
+
+
+def _ctask(t):
+    matrix, nd, np_, T, sd = t
+    P = _G['P']
+    rnd = random.Random(sd)
+    out = []
+    inst = 'raid_check[%s] nd=%d np=%d corrupted=%s' % (matrix, nd, np_, list(T))
+    try:
+        r, m = run_consistency(P, matrix, nd, np_, T, T)
+    except KernelViolation as e:
+        return [('accept true set', inst + ': accepted', False, str(e))]
+    except Unsupported as e:
+        return [('unsupported', inst, False, str(e))]
+    # an identically-zero syndrome is a concrete 0 and takes the `== 0` side by itself; anything recorded here is a syndrome that still
+    # depends on data or error bits, i.e. the true set would be rejected for some contents
+    ok = not m.collect and r == 0
+    out.append(('accept true set', inst + ': accepted', ok, 'all syndromes identically zero, returns %s' % r if ok else '%d syndrome bytes still depend on the contents (first at %s)' % (len(m.collect), m.collect[0][1] if m.collect else '?')))
+    if not ok or len(T) + 1 > np_:
+        return out
+    others = [x for x in range(nd + np_) if x not in T]
+    X = rnd.choice(others)
+    TX = tuple(sorted(T + (X,)))
+    try:
+        r, m = run_consistency(P, matrix, nd, np_, TX, T)
+    except KernelViolation as e:
+        return out + [('reject hidden corruption', inst + ' unlisted=%d' % X, False, str(e))]
+    except Unsupported as e:
+        return [('unsupported', inst, False, str(e))]
+    nbuf = nd + np_
+    good = set()
+    for f, _ in m.collect:
+        if any(x is None for x in f):
+            continue
+        for c in range(CCHUNK):
+            evars = [m.var(nbuf + X, c, b) for b in range(8)]
+            mask = 0
+            for v in evars:
+                mask |= v
+            if all((x & ~mask) == 0 for x in f) and any(x for x in f):
+                rows = []
+                for x in f:
+                    row = 0
+                    for b, v in enumerate(evars):
+                        if x & v:
+                            row |= 1 << b
+                    rows.append(row)
+                if _rank8(rows) == 8:
+                    good.add(c)
+    okx = good == set(range(CCHUNK))
+    out.append(('reject hidden corruption', inst + ': hidden corruption of block %d is always detected' % X, okx,
+                'some syndrome byte is an invertible function of the error byte alone' if okx else 'no syndrome byte isolates the error of block %d' % X))
+    return out
+
+
 def run(ctx, rep):
     rep.level = 'proof'
     rep.trusted_base = ['extended Cauchy determinant identity (Roth, Introduction to Coding Theory) for minors of order > 3 (quick) / > 3 (thorough: order 3 also exhaustive)',
@@ -330,3 +457,4 @@ def run(ctx, rep):
                        'the failed blocks must end up holding exactly the true-data forms and nothing else may be written.')
     check_minors(ctx, rep)
     check_rec(ctx, rep)
+    check_consistency(ctx, rep)
